@@ -1,7 +1,7 @@
 (* C19 -- property theorems only.  Proofs live in C19/Proofs*.v. *)
 From Coq Require Import NArith List.
 From DV Require Import Base.Outcome Base.Bytes Base.Names Base.PName C19.Gen C19.Model
-  C19.ModelCmp C19.ProofsDec C19.ProofsOld C19.ProofsNew C19.ProofsAgree C19.ProofsCmp C19.ProofsCmpSound C19.ProofsCmpInv C19.ProofsRev C19.ModelEdns C19.ModelMsg C19.ProofsItems C19.ProofsEdns C19.ProofsCmpRev C19.ProofsCmpRegions C19.ProofsMsg C19.ProofsMsgIff C19.ProofsFlat C19.ProofsMsgWhole C19.ProofsCmpPatch C01.Model C01.Model3 C05.OptModel.
+  C19.ModelCmp C19.ProofsDec C19.ProofsOld C19.ProofsNew C19.ProofsAgree C19.ProofsCmp C19.ProofsCmpSound C19.ProofsCmpInv C19.ProofsRev C19.ModelEdns C19.ModelMsg C19.ProofsItems C19.ProofsEdns C19.ProofsCmpRev C19.ProofsCmpRegions C19.ProofsMsg C19.ProofsMsgIff C19.ProofsFlat C19.ProofsMsgWhole C19.ProofsCmpPatch C19.ProofsFlatSound C01.Model C01.Model3 C05.OptModel.
 Import ListNotations.
 Local Open Scope N_scope.
 
@@ -363,3 +363,34 @@ Theorem C19_record_patched_sound : forall (h : bytes), length h = 12%nat ->
     items_read_back h m (len c) (IName owner :: IRaw fixed :: IRaw [hi; lo] :: rd).
 Proof. exact record_patched_sound. Qed.
 Print Assumptions C19_record_patched_sound.
+
+(* ---- round 5 widening: the uncompressed parser, both directions ---- *)
+(* Name::split_bytes_by_ref never panics and never runs out of fuel *)
+Theorem C19_flat_split_total : forall b, no_panic (flat_split b).
+Proof. exact flat_split_total. Qed.
+Print Assumptions C19_flat_split_total.
+
+(* whatever it accepts is the wire form of a valid absolute name (labels of
+   1..63 octets, at most 255 octets in all) followed by the octets it returns *)
+Theorem C19_flat_split_sound : forall b w rest, wf_bytes b -> flat_split b = Ok (w, rest) ->
+  exists n, valid_abs n /\ w = wire_abs n /\ b = wire_abs n ++ rest.
+Proof. exact flat_split_sound. Qed.
+Print Assumptions C19_flat_split_sound.
+
+(* hence it accepts exactly the octet strings that start with a valid name ... *)
+Theorem C19_flat_split_iff : forall b, wf_bytes b -> forall w rest,
+  flat_split b = Ok (w, rest) <-> exists n, valid_abs n /\ w = wire_abs n /\ b = wire_abs n ++ rest.
+Proof. exact flat_split_iff. Qed.
+Print Assumptions C19_flat_split_iff.
+
+(* ... and answers ParseError - no panic, no other error - to every other one *)
+Theorem C19_flat_split_reject : forall b, wf_bytes b ->
+  (~ exists n rest, valid_abs n /\ b = wire_abs n ++ rest) -> flat_split b = Err E_PARSE.
+Proof. exact flat_split_reject. Qed.
+Print Assumptions C19_flat_split_reject.
+
+(* it consumes exactly the name: the split does not depend on what follows *)
+Theorem C19_flat_split_suffix : forall b w rest more, wf_bytes b -> flat_split b = Ok (w, rest) ->
+  flat_split (b ++ more) = Ok (w, rest ++ more).
+Proof. exact flat_split_suffix. Qed.
+Print Assumptions C19_flat_split_suffix.
